@@ -828,8 +828,8 @@ var precedence = map[itemType]int{
 	itemGte:    3,
 	itemLt:     3,
 	itemLte:    3,
-	itemOr:     2,
-	itemAnd:    1,
+	itemAnd:    2,
+	itemOr:     1,
 	itemElvis:  0,
 }
 
